@@ -330,8 +330,13 @@ func stripOrdinal(s string) string {
 	// a value made in place and the same value made by a helper
 	s = shapeCall.ReplaceAllString(s, "VALUE")
 	s = strings.ReplaceAll(s, "MakeMap", "VALUE")
+	// a map look-up keyed by a field of some record: which variable holds the map and how the record
+	// is reached (range value, pointer into the slice, loop index) is not part of the shape
+	s = shapeDeref.ReplaceAllString(s, "dereference of VALUE[.·]")
 	return s
 }
+
+var shapeDeref = regexp.MustCompile(`dereference of [A-Za-z_φ…][A-Za-z0-9_]*\[.*\.·\]$`)
 
 var shapeUnexp = regexp.MustCompile(`\.[a-z_][A-Za-z0-9_]*`)
 
